@@ -758,17 +758,29 @@ impl<S: BitmapSlice + Send + Sync> FileSystem for PassthroughFs<S> {
             // File exists, and args.flags doesn't contain O_EXCL. Now let's open it with
             // open_inode().
             None => {
-                // Cap restored when _killpriv is dropped
-                let _killpriv = if self.killpriv_v2.load(Ordering::Relaxed)
-                    && (args.fuse_flags & FOPEN_IN_KILL_SUIDGID != 0)
-                {
-                    self::drop_cap_fsetid()?
-                } else {
-                    None
-                };
+                let open_existing = || -> io::Result<File> {
+                    // Cap restored when _killpriv is dropped
+                    let _killpriv = if self.killpriv_v2.load(Ordering::Relaxed)
+                        && (args.fuse_flags & FOPEN_IN_KILL_SUIDGID != 0)
+                    {
+                        self::drop_cap_fsetid()?
+                    } else {
+                        None
+                    };
 
-                let (_uid, _gid) = set_creds(ctx.uid, ctx.gid)?;
-                self.open_inode(entry.inode, args.flags as i32)?
+                    let (_uid, _gid) = set_creds(ctx.uid, ctx.gid)?;
+                    self.open_inode(entry.inode, args.flags as i32)
+                };
+                match open_existing() {
+                    Ok(f) => f,
+                    Err(e) => {
+                        // The entry is not returned to the client, so it will never be
+                        // forgotten: drop the reference taken by do_lookup().
+                        let mut inodes = self.inode_map.get_map_mut();
+                        self.forget_one(&mut inodes, entry.inode, 1);
+                        return Err(e);
+                    }
+                }
             }
         };
 
